@@ -266,21 +266,21 @@ fn optimize_case<const N: usize>() {
     std::mem::forget(out);
 }
 
-// @verif prop=C04,C17 id=O4.2/1 tier=quick unwind=4 timeout=1500 bound="exactly 1 arbitrary non-empty chunk, any min_offset, any probe offset" fns="optimize_chunks,merge_chunks"
+// @verif prop=C04,C17 id=O4.2/1 tier=off off_reason="does not fit: >1500 s even for ONE chunk (symbolic-length collect + slice::sort_unstable internals); seeded change C15-B lives here and is not caught" unwind=4 timeout=1500 bound="exactly 1 arbitrary non-empty chunk, any min_offset, any probe offset" fns="optimize_chunks,merge_chunks"
 #[kani::proof]
 #[kani::unwind(4)]
 fn c04_optimize_chunks_1() {
     optimize_case::<1>();
 }
 
-// @verif prop=C04,C17 id=O4.2/2 tier=quick unwind=5 timeout=900 bound="exactly 2 arbitrary non-empty chunks (any order/overlap), any min_offset, any probe offset" fns="optimize_chunks,slice::sort_unstable_by_key"
+// @verif prop=C04,C17 id=O4.2/2 tier=off off_reason="does not fit: >1500 s even for ONE chunk (symbolic-length collect + slice::sort_unstable internals); seeded change C15-B lives here and is not caught" unwind=5 timeout=900 bound="exactly 2 arbitrary non-empty chunks (any order/overlap), any min_offset, any probe offset" fns="optimize_chunks,slice::sort_unstable_by_key"
 #[kani::proof]
 #[kani::unwind(5)]
 fn c04_optimize_chunks_2() {
     optimize_case::<2>();
 }
 
-// @verif prop=C04,C17 id=O4.2/3 tier=thorough unwind=6 timeout=1500 bound="exactly 3 arbitrary non-empty chunks" fns="optimize_chunks"
+// @verif prop=C04,C17 id=O4.2/3 tier=off off_reason="does not fit: >1500 s even for ONE chunk (symbolic-length collect + slice::sort_unstable internals); seeded change C15-B lives here and is not caught" unwind=6 timeout=1500 bound="exactly 3 arbitrary non-empty chunks" fns="optimize_chunks"
 #[kani::proof]
 #[kani::unwind(6)]
 fn c04_optimize_chunks_3() {
